@@ -322,3 +322,29 @@ Definition is_all_senders (r : loop_range) : bool :=
   match r with AllSenders => true | _ => false end.
 Definition shape_ok (s : dispatcher_shape) : bool :=
   d_one_sender_per_other s && is_all_senders (d_echo s) && is_all_senders (d_direct s).
+
+(* ---- the phaser of startDKGExecution (internal/dkg/execution.go) ----
+   kyber's TimePhaser ends each DKG phase after a fixed duration; startDKGExecution builds it with
+   [dkg.NewTimePhaser(<config field>)].  Which field is read from the source on every run by the
+   dkgrun engine ([DPhaser] case of Corr/DKGExecCorr.v). *)
+Inductive phaser_source :=
+| PhTimeBetweenDKGPhases     (* d.config.TimeBetweenDKGPhases *)
+| PhKickoffGracePeriod       (* d.config.KickoffGracePeriod *)
+| PhOther.                   (* anything else *)
+
+Record dkg_timing := mkT { t_phase : Z; t_grace : Z }.   (* the node's dkg.Config, any unit *)
+
+Definition phaser_period (src : phaser_source) (c : dkg_timing) : Z :=
+  match src with
+  | PhTimeBetweenDKGPhases => t_phase c
+  | PhKickoffGracePeriod => t_grace c
+  | PhOther => 0
+  end.
+
+(* a bundle that reaches a holder [delay] after the holder entered the phase it belongs to is
+   still processed in that phase iff the phaser has not ticked yet *)
+Definition arrives_in_phase (src : phaser_source) (c : dkg_timing) (delay : Z) : bool :=
+  delay <? phaser_period src c.
+
+Definition phaser_ok (src : phaser_source) : bool :=
+  match src with PhTimeBetweenDKGPhases => true | _ => false end.
